@@ -44,6 +44,7 @@ type effSite struct {
 // parameters expressed in the vocabulary of the anchor function.
 func frameChecker(r *core.Run, anchor *ssa.Function, chain []ssa.CallInstruction, upto int) *guard.Checker {
 	fn := anchor
+	ck := &guard.Checker{P: r.P, Fn: fn, Res: r.Resolver(fn)}
 	var subst []string
 	for i := 0; i < upto; i++ {
 		call := chain[i]
@@ -64,8 +65,9 @@ func frameChecker(r *core.Run, anchor *ssa.Function, chain []ssa.CallInstruction
 		}
 		subst = ns
 		fn = h
+		ck = &guard.Checker{P: r.P, Fn: fn, Res: r.Resolver(fn), Subst: subst, ArgVals: call.Common().Args, Parent: ck}
 	}
-	return &guard.Checker{P: r.P, Fn: fn, Res: r.Resolver(fn), Subst: subst}
+	return ck
 }
 
 // mustPassDeep: the clause holds at the site if it is established on every path to the site inside the function
